@@ -565,7 +565,8 @@ class RefOracle(Oracle):
             if not bool(Q.any()):
                 raise run.violation("basis_not_refreshed", gi, factor=k, **ctx)
             og = refmodel.orthonormality_gap(Q)
-            tol_o = 50 * n * max(unit, spec.UNIT[hp.precond_dtype])
+            compute_dt = torch.float64 if hp.precond_dtype in (torch.bfloat16, torch.float16) else hp.precond_dtype
+            tol_o = 50 * n * max(unit, spec.UNIT[compute_dt])
             if og > tol_o:
                 raise run.violation("basis_not_orthonormal", gi, factor=k, gap=og, tol=tol_o, **ctx)
             run.probes["basis_checked"] += 1
@@ -601,7 +602,10 @@ class SoapBasisOracle(Oracle):
                 Qs = [spec._local(q).detach().to(refmodel.F64) for q in sh.factor_matrices_eigenvectors]
                 Ls = [spec._local(a).detach().to(refmodel.F64) for a in sh.factor_matrices]
                 ctx = {"block": b.key, "param": b.param_index, "shape": list(b.block.shape)}
-                unit = max(spec.UNIT[b.param.dtype], spec.UNIT[hp.precond_dtype])
+                # the basis is computed in the preconditioner dtype - or in float64 when that dtype has no eigh kernel and
+                # the double-precision retry takes over - and stored in the parameter's dtype
+                compute_dt = torch.float64 if hp.precond_dtype in (torch.bfloat16, torch.float16) else hp.precond_dtype
+                unit = max(spec.UNIT[b.param.dtype], spec.UNIT[compute_dt])
                 present = ev["g"][b.param_index] is not None
                 # number of stored bases == number of preconditioned dims: ignored dims never get a basis
                 pd = refmodel.preconditioned_dims(hp, b.block.dim())
